@@ -92,6 +92,22 @@ def objects(tier):
         add(n + "@cw#inv", "S:%s@cw" % n, lambda vs=vs: ~poly(rot(vs, 1)))
         add(n + "+shift", "S:%s+shift" % n, lambda vs=vs: poly([(x + 1, y) for x, y in vs]))
         add(n + "+eps", "S:%s+eps" % n, lambda vs=vs: poly([(x + (1e-3 if i == 0 else 0), y) for i, (x, y) in enumerate(variant(vs, "fint"))]))
+    # float data with non-dyadic differences, oblique edges, redundant vertices away from the middle
+    ft = [(0.1, 0.2), (0.7, 0.5), (0.3, 0.9)]
+    third = (0.1 + (0.7 - 0.1) / 3, 0.2 + (0.5 - 0.2) / 3)
+    add("ftri", "S:ftri", lambda: poly(ft))
+    add("ftri#rot", "S:ftri", lambda: poly(rot(ft, 1)))
+    add("ftri#vertex-at-third", "S:ftri", lambda: poly([ft[0], third, ft[1], ft[2]]))
+    add("ftri#frac", "S:ftri", lambda: poly([(F(1, 10), F(1, 5)), (F(7, 10), F(1, 2)), (F(3, 10), F(9, 10))]))
+    add("ftri#frac-vertex-at-third", "S:ftri", lambda: poly([(F(1, 10), F(1, 5)), (F(3, 10), F(3, 10)), (F(7, 10), F(1, 2)), (F(3, 10), F(9, 10))]))
+
+    def ftri_split(idx, nodes):
+        s = poly(ft)
+        s.jordans[0].split(idx, nodes)
+        return s
+
+    add("ftri#split-third", "S:ftri", lambda: ftri_split([0], [F(1, 3)]))
+    add("ftri#split-b", "S:ftri", lambda: ftri_split([1, 2], [0.3, F(2, 3)]))
     # same area, different region
     add("sqA-area-twin", "S:twin", lambda: poly([(0, 0), (20, 0), (20, 5), (0, 5)]))
     # composites
@@ -156,6 +172,16 @@ def objects(tier):
     add("c8#copy", "Q:c8", lambda: copy(circle(ndivangle=8)))
     add("c8#&big", "Q:c8", lambda: circle(ndivangle=8) & poly(P["big"]))
     add("c8@cw", "Q:c8@cw", lambda: ~circle(ndivangle=8))
+
+    def cfar(split=None):
+        c = circle(radius=1.3, center=(0.1, 0.2), ndivangle=8)
+        if split:
+            c.jordans[0].split(*split)
+        return c
+
+    add("c13", "Q:c13", lambda: cfar())
+    add("c13#split-third", "Q:c13", lambda: cfar(([0, 2], [F(1, 3), F(1, 3)])))
+    add("c13#split-b", "Q:c13", lambda: cfar(([1, 5], [0.4, F(2, 3)])))
     add("c8+r", "Q:c8+r", lambda: circle(radius=1.001, ndivangle=8))
     add("c16", "Q:c16", lambda: circle(ndivangle=16))
     add("lens", "Q:lens", lambda: al.build_leaf("Q.lens"))
@@ -234,7 +260,7 @@ def run_case(spec):
             polyg = False
         if polyg and (rg.region_sig(X) == rg.region_sig(Y)) != truth:
             # float copies of integer data have identical exact values: signatures must agree
-            if not any("eps" in t for t in (tag, tag2)):
+            if not any("eps" in t or "ftri" in t for t in (tag, tag2)):  # ftri: 0.1 is not exactly 1/10
                 raise RuntimeError("alphabet error: %s vs %s truth %s but region signatures say otherwise" % (name, n2, truth))
         pid = "%s == %s" % (name, n2)
         rep = {"id": "replay:" + pid, "family": spec["family"], "row": i, "cols": [j], "tier": spec["tier"]}
